@@ -109,6 +109,8 @@ pub struct State {
     pub fail_by_suffix: Option<(u32, String)>,
     /// if set, `fail_by_suffix` only hits calls made by this task of the controlled runtime
     pub fail_only_task: Option<usize>,
+    /// if set, `fail_by_suffix` disarms itself after this many failures
+    pub fail_by_suffix_budget: Option<u32>,
     /// if set: at every removal, the value of this clock, the path and the image right after it
     pub removal_clock: Option<&'static std::sync::atomic::AtomicU64>,
     pub removal_snaps: Vec<(u64, String, Image)>,
@@ -149,6 +151,13 @@ impl State {
             };
             if task_ok && mask & cls != 0 && what.to_string_lossy().ends_with(suffix.as_str()) {
                 self.faults_fired += 1;
+                if let Some(n) = self.fail_by_suffix_budget.as_mut() {
+                    *n -= 1;
+                    if *n == 0 {
+                        self.fail_by_suffix = None;
+                        self.fail_by_suffix_budget = None;
+                    }
+                }
                 return Err(injected());
             }
         }
